@@ -151,6 +151,83 @@ fn run_completeness_big(cx: &mut CaseCx, case: &Value) {
   }
 }
 
+
+/// the tag list handed to Server::new in every shape a caller may produce: unsorted, with repeats
+/// (adjacent or not, at either end), descending, a single tag, the full space plus a repeat
+fn run_tag_list_shapes(cx: &mut CaseCx, case: &Value) {
+  let lists: Vec<Vec<u8>> = vec![
+    vec![0, 1, 1, 2, 3],
+    vec![3, 2, 1, 0],
+    vec![5, 5],
+    vec![1, 0, 1],
+    vec![255, 0, 255, 1],
+    vec![2, 2, 2, 7, 7, 9],
+    vec![9, 7, 7, 2],
+    vec![0, 0, 1, 2, 3, 4, 5, 6, 7, 8, 9, 10, 11, 12, 13, 14, 15, 16, 17],
+    vec![7],
+    (0..=255u8).chain([0u8, 128, 255]).collect(),
+    (0..=255u8).rev().collect(),
+    vec![128, 127, 129, 127],
+  ];
+  let li = case["list"].as_u64().unwrap() as usize % lists.len();
+  let tags = lists[li].clone();
+  cx.entropy(280 + li as u64);
+  let server = match guard(|| pp::Server::new(tags.clone())) {
+    Ok(Ok(s)) => s,
+    other => {
+      cx.count("server_refused_tag_list", 1);
+      cx.note(format!("Server::new refused a tag list: {:?}", other.map(|r| r.map(|_| ()).map_err(|e| e.to_string()))));
+      return;
+    }
+  };
+  let pk = server.get_public_key();
+  let pk2 = pk.serialize_to_bincode().ok().and_then(|b| pp::ServerPublicKey::load_from_bincode(&b).ok());
+  let mut distinct = tags.clone();
+  distinct.sort();
+  distinct.dedup();
+  let probe: Vec<u8> = if distinct.len() > 24 { distinct.iter().copied().filter(|t| *t < 4 || *t > 251 || (126..=130).contains(t)).collect() } else { distinct.clone() };
+  for &md in &probe {
+    let (blinded, _) = pp::Client::blind(b"tag list shapes");
+    cx.eval();
+    cx.nontrivial(fnv_str(&format!("{}|{}", li, md)));
+    let d = json!({"tag_list": tags, "tag": md});
+    let ev = match guard(|| server.eval(&blinded, md, true)) {
+      Ok(Ok(ev)) => ev,
+      other => {
+        cx.viol("C13/eval-failed", format!("verifiable evaluation for the registered tag {} failed: {:?}", md, other.map(|r| r.map(|_| ()).map_err(|e| e.to_string()))), d);
+        continue;
+      }
+    };
+    if guard(|| pp::Client::verify(&pk, &blinded, &ev, md)) != Ok(true) {
+      cx.viol("C13/complete/honest-rejected/tag-list", format!("the honest evaluation for tag {} of a server created with the tag list {:?} is rejected", md, tags), d);
+      return;
+    }
+    if let Some(k2) = &pk2 {
+      if guard(|| pp::Client::verify(k2, &blinded, &ev, md)) != Ok(true) {
+        cx.viol("C13/complete/pk-roundtrip", format!("the honest evaluation for tag {} is rejected under the restored public key", md), d);
+        return;
+      }
+    }
+    cx.count("honest_verified", 1);
+    // soundness across the tags of the same list: the evaluation for md verifies under no other tag
+    for &other in &probe {
+      if other == md {
+        continue;
+      }
+      cx.eval();
+      if guard(|| pp::Client::verify(&pk, &blinded, &ev, other)) == Ok(true) {
+        cx.viol("C13/sound/tag-substitution-accepted/tag-list", format!("the evaluation computed for tag {} verifies as an evaluation for tag {} (server created with the tag list {:?})", md, other, tags), json!({"tag_list": tags, "computed_for": md, "verified_as": other}));
+        return;
+      }
+      cx.count("cross_tag_rejected", 1);
+    }
+  }
+  cx.outcome("tag list shapes");
+  if li == 0 {
+    cx.sample(json!({"lists": lists.len(), "example": tags}));
+  }
+}
+
 fn run_soundness(cx: &mut CaseCx, case: &Value) {
   let w = world(cx, 0);
   let w2 = world(cx, 1);
@@ -549,6 +626,13 @@ pub fn spec() -> PropSpec {
         gen: |_| vec![json!({})],
         run: run_forgery,
         min_counts: &[],
+      },
+      Check {
+        name: "tag-list-shapes",
+        rule: "Server::new with 12 tag lists as callers may produce them (unsorted, descending, repeats adjacent / apart / at either end, one tag, the full space with and without repeats): for every distinct tag (large lists: the extremes and the middle) the honest verifiable evaluation verifies against the public key and its restored form, and verifies under NO other tag of the list",
+        gen: |_| (0..12u64).map(|i| json!({"list": i})).collect(),
+        run: run_tag_list_shapes,
+        min_counts: &[("honest_verified", 40), ("cross_tag_rejected", 100)],
       },
       Check { name: "nonces", rule: "commitment s*G + c*PK recomputed for every proof issued (6 inputs x 4 tags x the identical request repeated 4 times; then the same requests answered in lockstep by the original server, a clone, a clone of the clone and a server restored from the exported state): pairwise distinct (about 860 proofs on one thread, more than any plausible per-thread pool)", gen: |_| vec![json!({})], run: run_nonces, min_counts: &[("proofs_issued", 90)] },
     ],
